@@ -2,13 +2,13 @@
   The data path of STOR / APPE / RETR as the code has it:
 
     server.py  stor_worker :  file_mode = "r+b" if connection.restart_offset else mode
-                              async with file_out, stream:
+                              async with stream, file_out:
                                   if connection.restart_offset: await file_out.seek(connection.restart_offset)
                                   async for data in stream.iter_by_block(connection.block_size):
                                       await file_out.write(data)
                               connection.response("226", ...)
                retr_worker :  file_in = open(real_path, "rb")
-                              async with file_in, stream:
+                              async with stream, file_in:
                                   if connection.restart_offset: await file_in.seek(connection.restart_offset)
                                   async for data in file_in.iter_by_block(connection.block_size):
                                       await stream.write(data)
@@ -137,14 +137,16 @@ def storLoopEvents : List Bytes → List Ev
   | [] => []                                   -- (the reads ran out without an empty one: not reachable)
   | d :: rest => if d.isEmpty then [.streamRead 0] else .streamRead d.length :: .fileWrite d.length :: storLoopEvents rest
 
-/-- `async with file_out, stream` enters the file first and leaves it last; the 226 is queued after both exits.
-    A failing open happens in `file_out.__aenter__`: the stream context is never entered (finding F6). -/
+/-- `async with stream, file_out` enters the stream first and leaves it last; the 226 is queued after both exits.
+    A failing open happens in `file_out.__aenter__`, inside the stream context: the data connection is closed
+    before the 451 (the order is pinned against the source by `C01.generated_with_order`; the pinned tree had
+    the items the other way round, finding F6). -/
 def storTrace (be : Backend) (old : Option Bytes) (v : UpVerb) (offset : Nat) (reads : List Bytes) : List Ev :=
   match openFile be old (fileMode v.mode offset) with
-  | none => [.openFailed (fileMode v.mode offset), .reply 451]
+  | none => [.openFailed (fileMode v.mode offset), .streamClose, .reply 451]
   | some _ =>
     [.open_ (fileMode v.mode offset)] ++ (if offset ≠ 0 then [.seek offset] else []) ++ storLoopEvents reads
-      ++ [.streamClose, .fileClose, .reply 226]
+      ++ [.fileClose, .streamClose, .reply 226]
 
 /-- read requests of the download loop, each followed by the write of what it returned; then the empty read -/
 def retrLoopEvents (f : BytesIO) (bs : Nat) : List Ev :=
@@ -152,11 +154,11 @@ def retrLoopEvents (f : BytesIO) (bs : Nat) : List Ev :=
 
 def retrTrace (old : Option Bytes) (offset bs : Nat) : List Ev :=
   match openFile .posix old .rb with
-  | none => [.openFailed .rb, .reply 451]
+  | none => [.openFailed .rb, .streamClose, .reply 451]
   | some f =>
     [.open_ .rb] ++ (if offset ≠ 0 then [.seek offset] else [])
       ++ retrLoopEvents (if offset ≠ 0 then f.seek offset else f) bs
-      ++ [.streamClose, .fileClose, .reply 226]
+      ++ [.fileClose, .streamClose, .reply 226]
 
 /-! ### the arithmetic specification -/
 
